@@ -153,8 +153,10 @@ static void run_case(Ctx& c, uint64_t idx) {
     }
     idx -= ns;
     if (idx < nh) { c.note("query huge"); c.attribute("C17"); if (idx % 2 == 0 || c.tier != "thorough") qA->huge_check(c, (int)(idx % 2)); else qW->huge_check(c, (int)(idx % 2)); c.distinct(idx + 12345); return; }
-    QItems L; int n = r.range(0, 8);
-    for (int i = 0; i < n; i++) { QItem it; it.key = r.chance(1, 6) ? Str() : gen_string(r, 10); it.hasValue = r.chance(2, 3); if (it.hasValue) it.value = r.chance(1, 6) ? Str() : gen_string(r, 10); L.push_back(it); }
+    QItems L; int n = r.chance(1, 40) ? r.range(9, 70) : r.range(0, 8);
+    for (int i = 0; i < n; i++) { QItem it; it.key = r.chance(1, 6) ? Str() : gen_string(r, 10); it.hasValue = r.chance(2, 3); if (it.hasValue) it.value = r.chance(1, 6) ? Str() : gen_string(r, 10);
+        if (n <= 8 && r.chance(1, 40)) { size_t len = special_length(r) % 1100; Str x = gen_string(r, len); while (x.size() < len) x += gen_string(r, len - x.size()).empty() ? Str("a") : gen_string(r, len - x.size()); x.resize(len); (r.coin() ? it.key : it.value) = x; if (!it.hasValue) it.value.clear(); }
+        L.push_back(it); }
     int plus = (int)r.below(2), nb = (int)r.below(2);
     Str key; for (auto& it : L) key += it.key + "\x01" + (it.hasValue ? it.value : Str("\x02")) + "\x03";
     c.note("query compose " + esc(key.substr(0, 200))); c.distinct(hash_str(key, (uint64_t)plus * 2 + (uint64_t)nb));
